@@ -29,7 +29,13 @@ HEAD = ["mon = SerialMonitor(115200)", 'z0 = analog_read("A0")', 'z1 = analog_re
 INPUT = "ar 14 0\nar 15 1\n"
 
 
+# parameters whose values are labels of a fixed vocabulary (free text is not in their domain)
+LABELS = {"emit", "align", "top_align", "bottom_align", "style", "animation", "name", "sensor", "model", "mode", "newline", "port"}
+
+
 def kind_of(P, row, p):
+    if p in LABELS:
+        return "other"
     lit = P.literal(row, p)
     v = P.canon_src(lit)
     if isinstance(v, Fraction):
